@@ -20,8 +20,11 @@ TRUSTED_BASE = [
     "the Python glue (1/sqrt N scaling, sign convention, eigenvalue recomputation through the autocovariance / sinc sequence) is "
     "modelled and proved; the FFT-based autocovariance is modelled by the direct lag sums (float mode rtol 1e-9 on tapers, 1e-7 on ratios)",
 ]
-PARTIAL = ["orthonormal / ordered / leading eigenvectors of the sinc kernel / symmetric-antisymmetric / energy fraction: properties of "
-           "the C routine's output, evaluated by the oracle only (level: proof for the glue, testing for the C numerics)",
+PARTIAL = ["orthonormal / ordered / symmetric-antisymmetric: properties of the C routine's output, evaluated by the oracle only "
+           "(level: proof for the glue, testing for the C numerics).  'eigenvectors of the sinc kernel' and 'ratio = energy fraction in "
+           "(0, 1)' are theorems relative to one contract: the returned columns are eigenvectors of the tridiagonal matrix the C code "
+           "builds (Model/DpssTri.lean; kind 'tri' checks that contract on every run with an independent tridiagonal eigen-solver); "
+           "that those are the LEADING eigenvectors of the kernel (the order of the two spectra) is Slepian's deeper result: oracle only",
            "model comparison only for N <= 600 (the model's list-based lag sums are cubic in N); above, oracle only"]
 ASSUMPTIONS = ["oracle tolerances: orthonormality 1e-6, ratio vs energy fraction 1e-6 (quadratic form of the sinc kernel, N <= 1024) and 1e-9 "
                "(direct O(N^2) lag sums, every N), ratio vs scipy's independently computed ratios 1e-8, agreement with scipy's dpss 1e-5 "
@@ -33,7 +36,9 @@ ASSUMPTIONS = ["oracle tolerances: orthonormality 1e-6, ratio vs energy fraction
                "installed binary does not correspond to src/cpp/mydpss.c",
                "argument forms (integer NW, numpy scalar N / NW / k, float32 NW with a dyadic value) must give the bit-identical result of "
                "the plain Python-number call"]
-RULE = ("fixed grid, the same in every round: N in {8..39} dense and {47, 64, 65, 100, 128, 129, 200, 256, 257, 512, 1000} (thorough: + 1023, "
+RULE = ("tri: N in {8, 9, 13, 16, 31, 32, 33, 64, 100, 129, 256, 511, 1024} (thorough: + 512, 1025, 2048) x NW in {1, 1.5, 2.5, 3.3, 4, 7.5, "
+        "one uniform in [1, 8)}, k default or 2NW-1: the columns dpss returns against the eigenvectors of the model's tridiagonal matrix; "
+        "fixed grid, the same in every round: N in {8..39} dense and {47, 64, 65, 100, 128, 129, 200, 256, 257, 512, 1000} (thorough: + 1023, "
         "1024, 1025, 2047, 2048, 2049, 4095, 4096) x NW in {1, 1.5, .., 4, 4.5, 5, 5.5, 6, 6.5, 7, 7.5, 8}, quarter-integers (1.25, 1.75, "
         "2.25, 3.25) and other values (1.2, 2.3, 2.7, 3.3) with NW < N/2 x k in {None, 1, floor(2NW) - 1, floor(2NW)} + one k drawn uniformly "
         "in 1..floor(2NW) per case (quick: a seed-dependent third of the N > 24 cases); NW just below N/2 ((8, 3.99), (9, 4.4), (10, 4.9), "
@@ -123,6 +128,39 @@ def model_dpss(p):
     k = _k(N, NW, p["k"])
     raw, ts = _raw(N, NW, k)
     return ("F", proto.request("dpssglue", "F", [N], [[NW], ts] + [raw[i] for i in range(k)]))
+
+
+# ---- the matrix the C routine diagonalises (Model/DpssTri.lean) vs what dpss returns -------------------------------------------------
+
+def impl_tri(p):
+    _load_lib()
+    from spectrum.mtm import dpss
+    t, _ = dpss(p["N"], p["NW"], p["k"])
+    t = np.asarray(t)
+    return [t[:, i] for i in range(t.shape[1])]
+
+
+def model_tri(p):
+    # `multitap` declares npi as a C float: the routine's W is float32(NW) / N (Model/DpssTri.lean takes W as given)
+    W = float(np.float32(p["NW"])) / p["N"]
+    return ("F", proto.request("dpsstri", "F", [p["N"]], [[W]]))
+
+
+def post_tri(p, iv, mv):
+    """the model returns the arrays diag / offdiag of the tridiagonal matrix (theorem tridiag_commutes_with_kernel is about exactly
+    these entries); an independent tridiagonal eigen-solver (a parameter) gives its eigenvectors for the k smallest eigenvalues,
+    which are compared with the columns dpss returns, up to sign (the glue's sign convention is the object of other theorems)"""
+    from scipy.linalg import eigh_tridiagonal
+    d = np.real(mv[0])
+    e = np.real(mv[1])[1:]
+    k = len(iv)
+    w, v = eigh_tridiagonal(d, e, select="i", select_range=(0, k - 1))
+    cols = []
+    for i in range(k):
+        c = v[:, i]
+        a = np.real(np.asarray(iv[i]))
+        cols.append(c if np.dot(c, a) >= 0 else -c)
+    return iv, cols
 
 
 def _conc(v, W):
@@ -279,6 +317,10 @@ def _tags(p):
 
 KINDS = {
     "dpss": {"impl": impl_dpss, "model": model_dpss, "oracle": oracle_dpss, "rtol": 1e-7, "atol": 1e-10, "key": _key, "tags": _tags},
+    # dpss columns = eigenvectors (k smallest eigenvalues) of the model's tridiagonal matrix; tolerance: the C solver's inverse
+    # iteration agrees with LAPACK to ~1e-11 on the unchanged tree for N <= 1200 (4e-12 .. 3e-10 measured), 1e-6 leaves > 1000x margin
+    "tri": {"impl": impl_tri, "model": model_tri, "post": post_tri, "rtol": 1e-6, "atol": 0, "key": lambda p: "tri|" + _key(p),
+            "tags": lambda p: ["tri"] + _tags(p)},
     "dpss_shipped": {"oracle": oracle_shipped, "key": _key, "tags": _tags},
     "dpss_forms": {"oracle": oracle_forms, "key": _key, "tags": lambda p: _tags(p) + ["form:" + p["form"]]},
 }
@@ -301,6 +343,12 @@ def _pending_sign(N, NW):
 
 def gen(rng, nrng, tier):
     quick = tier == "quick"
+    # ---- the tridiagonal matrix of the C routine (model) against the returned columns
+    for N in [8, 9, 13, 16, 31, 32, 33, 64, 100, 129, 256] + ([511, 1024] if quick else [511, 512, 1024, 1025, 2048]):
+        for NW in (1, 1.5, 2.5, 3.3, 4, 7.5, float(nrng.uniform(1, 8))):
+            if NW >= N / 2.0:
+                continue
+            yield ("tri", {"N": N, "NW": float(NW), "k": None if (N + int(2 * NW)) % 2 else max(1, int(2 * NW) - 1)})
     # ---- fixed grid (the same in every round; in quick a seed-dependent third of the N > 24 cases)
     Ns = list(range(8, 40)) + [47, 64, 65, 100, 128, 129, 200] + (
         [256, 257, 512, 1000] if quick else [256, 257, 512, 1000, 1023, 1024, 1025, 2047, 2048, 2049, 4095, 4096])
